@@ -351,8 +351,11 @@ def replay(path):
         v = json.load(f)
     print(json.dumps(v, indent=1))
     c = v["case"]
+    if "r1" in c and "adapters1" in c:
+        return _replay_paired(c)
     if "read" not in c or "types" not in c:
-        return 1
+        import sys
+        return common.replay_by_rerun(sys.modules[__name__], PROP, path)
     from cutadapt.info import ModificationInfo
     from cutadapt.modifiers import AdapterCutter, ReverseComplementer
     from dnaio import SequenceRecord
@@ -375,3 +378,33 @@ def replay(path):
     exp = rev if use else fwd
     print("stated rule:", "rc" if use else "given", exp.sequence)
     return 0 if (out.sequence, out.name) == (exp.sequence, "r rc" if use else "r") else 1
+
+
+def _replay_paired(c):
+    """One pair through PairedReverseComplementer vs. the plain cutters on the pair as given and swapped."""
+    from cutadapt.info import ModificationInfo
+    from cutadapt.modifiers import AdapterCutter, PairedReverseComplementer
+    from dnaio import SequenceRecord
+
+    combo = [next(i for i, (_, s_) in enumerate(MENU) if s_ == spec) for spec in c["adapters1"]]
+    specs = [MENU[i] for i in combo]
+    ads1 = make(specs, c["rate"], c["min_overlap"])
+    ads2 = make([MENU[(i + 3) % len(MENU)] for i in combo], c["rate"], c["min_overlap"])
+    act = None if c["action"] == "none" else c["action"]
+    which = c["cutters"]
+    mk = lambda ads: AdapterCutter(ads, times=1, action=act, index=False)
+    c1, c2 = (mk(ads1) if which in ("both", "r1") else None), (mk(ads2) if which in ("both", "r2") else None)
+    p1, p2 = (mk(ads1) if c1 else None), (mk(ads2) if c2 else None)
+    a, b = c["r1"], c["r2"]
+    qa, qb = uq(len(a)), uq(len(b), 10)
+    o1, o2 = PairedReverseComplementer(c1, c2)(SequenceRecord("r", a, qa), SequenceRecord("r", b, qb),
+                                               ModificationInfo(SequenceRecord("r", a, qa)), ModificationInfo(SequenceRecord("r", b, qb)))
+
+    def mt(p, seq, q):
+        return (SequenceRecord("r", seq, q), []) if p is None else p.match_and_trim(SequenceRecord("r", seq, q))
+
+    (f1, m1), (f2, m2), (s1, n1), (s2, n2) = mt(p1, a, qa), mt(p2, b, qb), mt(p1, b, qb), mt(p2, a, qa)
+    use = bool(n1 or n2) and sum(m.score for m in n1 + n2) > sum(m.score for m in m1 + m2)
+    e1, e2 = (s1, s2) if use else (f1, f2)
+    print("implementation:", o1.name, o1.sequence, o2.sequence, " stated rule:", "swapped" if use else "as given", e1.sequence, e2.sequence)
+    return 0 if (o1.sequence, o2.sequence, o1.name) == (e1.sequence, e2.sequence, "r rc" if use else "r") else 1
